@@ -236,6 +236,9 @@ class Models(object):
                 raise Unsupported('list of bound method')
             items = ex.iter_concrete(path, a)
             return [(path, ex.new_list(path, items) if obj is list else VTuple(items))]
+        if obj is enumerate and len(args) == 1:
+            items = ex.iter_concrete(path, args[0])
+            return [(path, VTuple([VTuple([VInt(i), x]) for i, x in enumerate(items)]))]
         if obj is map and len(args) >= 2:
             lists = [ex.iter_concrete(path, a) for a in args[1:]]
             n = min(len(l) for l in lists)
